@@ -1,4 +1,4 @@
-import FxVerif.Proofs.C13
+import FxVerif.Proofs.C13Fits
 import FxVerif.Model.C07
 import FxVerif.Proofs.C07Gov
 /-!
@@ -44,6 +44,28 @@ theorem endBlock_total_reachable (p : Params) (bals : Store Nat Nat) (ops : List
     (hf : PowerFits (run (init p bals) ops)) :
     ∃ s', endBlock (run (init p bals) ops) (run (init p bals) ops).height = .ok s' :=
   endBlock_total _ _ hf
+
+/-- only the ONLINE oracles enter the `uint64` sum: the hypothesis can be weakened to their power -/
+theorem endBlock_total_online (s : State) (h : Nat) (hf : OnlinePowerFits s) : ∃ s', endBlock s h = .ok s' :=
+  FxVerif.Proofs.C13.endBlock_total_online slashing_code_facts refresh_code_facts s h hf
+
+/-- **no environment hypothesis on the state**: in every state reachable through the op alphabet the end-blocker completes,
+provided the PARAMETERS satisfy `MaxOracleSize × (threshold × multiple / powerReduction) < 2^64` (`ParamsFit`; e.g. the
+default 10 000 FX × 10 / 10^18 gives 10^7 ≪ 2^64).  Proof: online oracles are on the governance list, which has at most
+`MaxOracleSize` entries, records have distinct addresses and every recorded stake is at most `threshold × multiple`
+(invariant `FitInv`, by induction over the op list; the guards it needs are the regenerated `guard_code_facts`) -/
+theorem endBlock_total_reachable_params (p : Params) (bals : Store Nat Nat) (ops : List Op) (hp : ParamsFit p) (h : Nat) :
+    ∃ s', endBlock (run (init p bals) ops) h = .ok s' := by
+  have hg : GuardCodeOk := by decide
+  have hi := run_fit slashing_code_facts hg ops _ (init_fit p bals)
+  have hpar : (run (init p bals) ops).p = p := run_params slashing_code_facts ops _
+  exact endBlock_total_online _ h (onlineFits_of_fit _ hi (by rw [hpar]; exact hp))
+
+/-- … so no reachable history can make a block panic in the crosschain end-blocker -/
+theorem block_never_panics_reachable (p : Params) (bals : Store Nat Nat) (ops : List Op) (hp : ParamsFit p) (dt : Nat) :
+    (block (run (init p bals) ops) dt).2 = .ok := by
+  obtain ⟨s', hs'⟩ := endBlock_total_reachable_params p bals ops hp (run (init p bals) ops).height
+  simp [block, hs']
 
 /-- a block never panics: the `block` op answers `ok` -/
 theorem block_never_panics (s : State) (dt : Nat) (hf : PowerFits s) : (block s dt).2 = .ok := by
@@ -133,6 +155,8 @@ end
 def pEx : Params := ⟨100, 10, 8 * 10 ^ 17, 2, 10, 100, 10 ^ 17, 2⟩
 def sEx : State := run (init pEx [(0, 5000)]) [.gov [0], .bond 0 0 0 0 100, .mkcall, .block 5, .block 5]
 example : PowerFits sEx := by decide
+example : ParamsFit pEx := by decide
+example : ParamsFit ⟨10000 * 10 ^ 18, 10, 8 * 10 ^ 17, 20000, 10 ^ 18, 1814400, 10 ^ 17, 20⟩ := by decide  -- mainnet-like
 example : sEx.height = 3 ∧ (sEx.calls.map (·.height)) = [1] := by decide
 example : ((block sEx 5).1.oracles.map (fun p => (p.2.online, p.2.slashTimes))) = [(false, 1)] ∧ (block sEx 5).2 = .ok := by decide
 example : endBlockerSites.length ≥ 20 := by decide
